@@ -143,9 +143,9 @@ func init() {
 		if obj == nil {
 			return "driver-error no object " + f[2]
 		}
+		old := debug.SetMaxStack(32 << 20) // runaway recursion (F7 / F39, not ours) must die quickly
+		defer debug.SetMaxStack(old)
 		if f[4] != "-" {
-			old := debug.SetMaxStack(16 << 20)
-			defer debug.SetMaxStack(old)
 			seed, _ := strconv.ParseUint(f[4], 10, 64)
 			obj.FillRandom(basictl.NewRandGenerator(&srand{s: seed}))
 		} else if _, err := obj.ReadTL1Boxed(unhex(f[3])); err != nil {
